@@ -305,6 +305,9 @@ func runC19(c *Ctx) {
 						}
 					}
 				default:
+					if m.helperOf(r) != nil {
+						continue // spliced helper: its uses of the argument are in this list
+					}
 					uses++
 					if _, isCall := r.(*ssa.Call); isCall {
 						bad = "the raw " + pn + " argument is passed on unclamped"
